@@ -108,13 +108,13 @@ A_MENU = [
     ("para", ["a", H("a"), "\n"]), ("tight-list", ["- a\n- ", H("a"), "\n"]), ("loose-list", ["- a\n\n- ", H("a"), "\n"]),
     ("olist", ["1. a\n2. ", H("a"), "\n"]), ("quote-lazy", ["> a\n", H("a"), "\n"]), ("fence", ["```\n", H("a"), "\n```\n"]),
     ("heading", ["# a", H("a"), "\n"]), ("setext", ["a\n", H("a"), "=\n"]), ("hr", ["**", H("a"), "\n"]), ("code", ["    a", H("a"), "\n"]),
-    ("table", ["a|b\n-|-\n", H("a"), "|2\n"]), ("refdef", ["[r]: /u", H("a"), "\n"]), ("html", ["<div>\n", H("a"), "\n"]),
+    ("table", ["a|b\n-|-\n", H("a"), "|2\n"]), ("refdef", ["[r]: /u '", H("a"), "'\n"]), ("html", ["<div>\n", H("a"), "\n"]),
     ("nested", ["> - a\n>   ", H("a"), "\n"]), ("list-code", ["- a\n\n      ", H("a"), "\n"]),
 ]
 B_MENU = [
     ("para", ["b", H("b"), "\n"]), ("list", ["- ", H("b"), "\n"]), ("star-list", ["* b\n* ", H("b"), "\n"]), ("olist", ["1. ", H("b"), "\n"]),
     ("quote", ["> ", H("b"), "\n"]), ("fence", ["```\n", H("b"), "\n```\n"]), ("heading", ["#", H("b"), " b\n"]),
-    ("setext", ["b\n", H("b"), "\n"]), ("table", ["c|d\n-|-\n", H("b"), "\n"]), ("refdef", ["[s]: ", H("b"), "\n"]),
+    ("setext", ["b\n", H("b"), "\n"]), ("table", ["c|d\n-|-\n", H("b"), "\n"]), ("refdef", ["[s]: /w '", H("b"), "'\n"]),
     ("html", ["<p>", H("b"), "\n"]), ("hr", ["--", H("b"), "\n"]),
 ]
 CONC_B = ["b\n", "- b\n", "> b\n", "1. b\n", "# b\n", "```\nb\n```\n", "c|d\n-|-\n1|2\n"]
